@@ -59,7 +59,7 @@ pub fn generate(prop: &str, tier: &str, seed: u64, outdir: &str) {
         }
         "C02" => gen_c02(&mut out, &mut rng, thorough),
         "C15" => {
-            let scripts: Vec<usize> = if thorough { (0..crate::faults::NUM_SCRIPTS).collect() } else { vec![0, 1, 2, 4, 5, 6, 7, 8, 9] };
+            let scripts: Vec<usize> = if thorough { (0..crate::faults::NUM_SCRIPTS).collect() } else { vec![0, 1, 2, 4, 5, 6, 7, 8, 9, 10] };
             for n in scripts {
                 for kind in ["write", "read", "seek"] {
                     for mode in ["transient", "persistent"] {
@@ -1435,6 +1435,11 @@ fn gen_glue_directed(prop: &str, out: &mut Out, thorough: bool) {
             E::Bin("eq", b(E::Bin("and", b(col(a)), b(int(1)))), b(col(bb))),
             E::Bin("add", b(E::Bin("and", b(int(7)), b(col(a)))), b(E::Bin("or", b(int(0)), b(col(bb))))),
             E::Bin("and", b(E::Bin("and", b(int(1)), b(col(a)))), b(col(bb))),
+            E::Lit(V::Str(String::new())),
+            E::Bin("or", b(E::Bin("eq", b(col(a)), b(int(3)))), b(E::Lit(V::Str(String::new())))),
+            E::Un("not", b(E::Bin("and", b(E::Lit(V::Str(String::new()))), b(col(a))))),
+            E::Bin("eq", b(col("Fl")), b(int(1))),
+            E::Bin("eq", b(col("Fl.")), b(int(1))),
         ]
     };
     let flag_table = |out: &mut Out, name: &str| {
@@ -1635,6 +1640,137 @@ fn gen_glue_directed(prop: &str, out: &mut Out, thorough: bool) {
             out.req("qualified_name", format!("select SEL 1 {} - T {}", hex_of_str("Dir.Parent"), hex_of_str("Dir")));
             out.req("qualified_name", format!("select SEL 2 {} {} - T {}", hex_of_str("Parent"), hex_of_str("Dir.Parent"), hex_of_str("Dir")));
             out.req("qualified_name", format!("update {} 1 {} S{} eq C{} I1", hex_of_str("Dir"), hex_of_str("Dir.Parent"), hex_of_str("down"), hex_of_str("Parent")));
+            out.req("snapshot", "snapshot".into());
+            out.req("reopen", "reopen flush".into());
+            out.req("snapshot", "snapshot".into());
+        }
+        _ => {}
+    }
+    gen_glue_directed2(prop, out, thorough);
+}
+
+/// second instalment (round 10)
+fn gen_glue_directed2(prop: &str, out: &mut Out, thorough: bool) {
+    use crate::decode::*;
+    let key = |name: &str, ct: CT| {
+        let mut c = ColDef::new(name, ct);
+        c.key = true;
+        c
+    };
+    let opt = |name: &str, ct: CT| {
+        let mut c = ColDef::new(name, ct);
+        c.nullable = true;
+        c
+    };
+    // tables and streams whose NAMES are unusual but legal
+    if ["C01", "C06", "C11", "C02", "C05"].contains(&prop) {
+        out.req("new", "new 0".into());
+        // user tables whose names begin with an underscore are tables like any other
+        for t in ["_Local", "__Cache", "_"] {
+            out.req("underscore_table", format!("create_table {} {} {}", hex_of_str(t), key("K", CT::I16).tok(), opt("V", CT::Str(0)).tok()));
+            out.req("underscore_table", format!("insert {} 1 2 I1 S{}", hex_of_str(t), hex_of_str("v")));
+        }
+        // two columns whose names differ in the case of a letter only
+        out.req("case_columns", format!("create_table {} {} {} {}", hex_of_str("File"), key("Key", CT::I16).tok(), opt("Name", CT::Str(0)).tok(), opt("NAME", CT::Str(0)).tok()));
+        out.req("case_columns", format!("insert {} 2 3 I1 S{} S{} 3 I2 S{} S{}", hex_of_str("File"), hex_of_str("readme.txt"), hex_of_str("README.TXT"), hex_of_str("setup.exe"), hex_of_str("INSTALL.EXE")));
+        let f = hex_of_str("File");
+        out.req("case_columns", format!("select SEL 1 {} - T {f}", hex_of_str("NAME")));
+        out.req("case_columns", format!("select SEL 2 {} {} eq C{} S{} T {f}", hex_of_str("NAME"), hex_of_str("Name"), hex_of_str("NAME"), hex_of_str("INSTALL.EXE")));
+        out.req("case_columns", format!("update {f} 1 {} S{} eq C{} S{}", hex_of_str("NAME"), hex_of_str("SETUP.EXE"), hex_of_str("NAME"), hex_of_str("INSTALL.EXE")));
+        out.req("case_columns", format!("delete {f} eq C{} S{}", hex_of_str("NAME"), hex_of_str("README.TXT")));
+        out.req("case_columns", format!("select SEL 0 - T {f}"));
+        // a binary (stream reference) column in the key
+        let mut data = key("Data", CT::Str(0));
+        data.cat = Some("Binary");
+        out.req("binary_key", format!("create_table {} {} {}", hex_of_str("Icons"), key("Owner", CT::Str(16)).tok(), data.tok()));
+        out.req("binary_key", format!("insert {} 2 2 S{} S{} 2 S{} S{}", hex_of_str("Icons"), hex_of_str("app"), hex_of_str("Icons.A"), hex_of_str("app"), hex_of_str("Icons.B")));
+        let mut only = key("Blob", CT::Str(0));
+        only.cat = Some("Binary");
+        only.localizable = true;
+        out.req("binary_key", format!("create_table {} {}", hex_of_str("Blobs"), only.tok()));
+        out.req("binary_key", format!("insert {} 2 1 S{} 1 S{}", hex_of_str("Blobs"), hex_of_str("b1"), hex_of_str("b2")));
+        // streams whose names begin with the character the container's own metadata streams begin with
+        for (i, n) in ["\u{5}Extras", "\u{5}SummaryInformation", "a\u{5}b", "\u{1}x"].iter().enumerate() {
+            out.req("control_stream_name", format!("stream_write {} 0{}0203", hex_of_str(n), i + 1));
+        }
+        out.req("control_stream_name", "streams".into());
+        out.req("control_stream_name", format!("stream_read {}", hex_of_str("\u{5}Extras")));
+        out.req("snapshot", "snapshot".into());
+        out.req("reopen", "reopen into_inner".into());
+        out.req("snapshot", "snapshot".into());
+        out.req("binary_key", format!("insert {} 1 2 S{} S{}", hex_of_str("Icons"), hex_of_str("app"), hex_of_str("Icons.C")));
+        out.req("binary_key", format!("insert {} 1 1 S{}", hex_of_str("Blobs"), hex_of_str("b3")));
+        out.req("control_stream_name", "streams".into());
+        out.req("snapshot", "snapshot".into());
+    }
+    match prop {
+        "C04" => {
+            // streams named like rows of a table that does not exist; dropping that table is refused
+            // and changes nothing
+            out.req("new", "new 0".into());
+            for n in ["Icon.AppIcon.ico", "Icon.DocIcon.ico", "Icon", "Binary.x"] {
+                out.req("stream_write", format!("stream_write {} 010203", hex_of_str(n)));
+            }
+            out.req("snapshot", "snapshot".into());
+            for t in ["Icon", "Binary", "Icon.AppIcon", "Nope"] {
+                out.req("drop_missing", format!("drop_table {}", hex_of_str(t)));
+                out.req("snapshot", "snapshot".into());
+            }
+            out.req("reopen", "reopen flush".into());
+            out.req("snapshot", "snapshot".into());
+        }
+        "C08" | "C03" | "C11" => {
+            for k in 0..(if thorough { 18 } else { 4 }) {
+                out.req("file_edit", format!("@file_edit {k}"));
+            }
+        }
+        "C05" => {
+            for k in 0..3 {
+                out.req("readonly_file_mutation", format!("@readonly_file_mutation {k}"));
+            }
+        }
+        "C10" | "C18" => {
+            // the first representable time and its neighbours: set, cleared, set
+            for (i, t) in ["-11644473600.000000000", "-11644473600.000000100", "-11644473599.000000000"].iter().enumerate() {
+                out.req("new", format!("new {}", i % 3));
+                out.req("first_time", format!("sum_set ctime {t}"));
+                out.req("snapshot", "snapshot".into());
+                out.req("first_time", "sum_clear ctime".into());
+                out.req("first_time", format!("sum_set ctime {t}"));
+                out.req("snapshot", "snapshot".into());
+                out.req("reopen", format!("reopen {}", crate::hist::CLOSE_MODES[i % 3]));
+                out.req("snapshot", "snapshot".into());
+            }
+            for _ in 0..(if thorough { 20 } else { 3 }) {
+                out.req("ctime_now", "@ctime_now".into());
+            }
+        }
+        "C16" => {
+            // signed packages (the signature streams come from a signing tool), read only
+            for (bi, b) in c09_bases().iter().enumerate() {
+                let mut e = b.clone();
+                e.push(("\u{5}DigitalSignature".to_string(), vec![0x30, 0x82, 1, 2, 3, 4]));
+                if bi % 2 == 0 {
+                    e.push(("\u{5}MsiDigitalSignatureEx".to_string(), vec![9; 20]));
+                }
+                for mode in crate::hist::CLOSE_MODES {
+                    out.req("load_signed", format!("load 0 {}", entries_tok(&e)));
+                    out.req("ro_has", "has_sig".into());
+                    out.req("ro_snapshot", "snapshot".into());
+                    out.req("readonly_close", format!("@readonly_close {mode}"));
+                }
+            }
+        }
+        "C20" => {
+            // string columns wider than the one byte the format has for the width
+            out.req("new", "new 0".into());
+            for (i, w) in [255usize, 256, 257, 300, 511, 512, 1000, 65535, 70000].iter().enumerate() {
+                for cat in [None, Some("Identifier"), Some("Text"), Some("Formatted")] {
+                    let mut c = opt("Wide", CT::Str(*w));
+                    c.cat = cat;
+                    out.req("wide_column", format!("create_table {} {} {}", hex_of_str(&format!("W{i}{}", cat.map(|x| &x[..1]).unwrap_or("n"))), key("K", CT::I16).tok(), c.tok()));
+                }
+            }
             out.req("snapshot", "snapshot".into());
             out.req("reopen", "reopen flush".into());
             out.req("snapshot", "snapshot".into());
